@@ -116,6 +116,8 @@ def cons_text(c):
         return f"{k} Q {f['rows']} {f['cols']} {FL(f['P'])} {FL(f['q'])} {H(f['r'])}"
     if f["kind"] == "N":
         return f"{k} N {f['size']} {H(f['r'])}"
+    if f["kind"] == "P":
+        return f"{k} P {f['size']} {H(f['r'])}"
     return f"{k} S {f['id']} {f['size']} {H(f['r'])}"
 
 
@@ -142,6 +144,9 @@ def parse_functional(t):
     if kind == "N":
         size = t.int(); r = t.f()
         return dict(kind="N", size=size, r=r)
+    if kind == "P":
+        size = t.int(); r = t.f()
+        return dict(kind="P", size=size, r=r)
     ident = t.s(); size = t.int(); r = t.f()
     return dict(kind="S", id=ident, size=size, r=r)
 
@@ -227,6 +232,13 @@ def functional_exact(f, x, n):
         v = sum(abs(xi) for xi in x) - r
         g = [Fr((xi > 0) - (xi < 0)) for xi in x]
         return v, g, sum(abs(xi) for xi in x) + abs(r), [Fr(1)] * n
+    if f["kind"] == "P":
+        # a NESTED penalty: the quadratic penalty (c = 2) of the sphere function constrained by x_0 <= 1/4, shifted by r - the
+        # constraint's function itself evaluates a penalty function (seeded change C05-g2: a shared scratch buffer)
+        h = max(Fr(0), x[0] - Fr(1, 4))
+        v = sum(xi * xi for xi in x) + 2 * h * h - r
+        g = [2 * xi for xi in x]; g[0] = g[0] + 4 * h
+        return v, g, sum(xi * xi for xi in x) + 2 * h * h + abs(r), [abs(2 * x[i]) + (4 * h if i == 0 else 0) for i in range(n)]
     if f["id"] == "sphere":
         return sum(xi * xi for xi in x) - r, [2 * xi for xi in x], sum(xi * xi for xi in x) + abs(r), [abs(2 * xi) for xi in x]
     if f["id"] == "trid":
@@ -358,8 +370,10 @@ def gen_constraint(g, n, x, mode, kinds=KINDS):
             if mode == "feasible" and k == "quadin" and rng.chance(0.6):
                 c["r"] = float(-v) - 2.0
     else:
-        fk = rng.choice(["Q", "N", "S", "S"])
-        if fk == "Q":
+        fk = rng.choice(["Q", "N", "S", "S", "P"])
+        if fk == "P":
+            f = dict(kind="P", size=n, r=abs(g.coef(8.0)))
+        elif fk == "Q":
             f = dict(kind="Q", rows=n, cols=n, P=g.sym(n, 1.0), q=[g.coef() for _ in range(n)], r=g.coef(4.0), size=n)
         elif fk == "N":
             f = dict(kind="N", size=n, r=abs(g.coef(8.0)))
